@@ -244,7 +244,7 @@ def main(argv=None):
     out = run_tasks(names, src, tier)
     # verdicts must not depend on machine load: tasks with a solver 'unknown' are re-run with few processes and a larger budget
     shaky = [o["task"] for o in out if any(r["result"] == "unknown" for r in o["results"]) and not o["crash"]]
-    if shaky:
+    if shaky and len(shaky) <= 6:          # many open obligations = a changed tree: the bounded suites decide, no point in retrying
         jobs = [(n, src, 60000 if tier == "quick" else 180000) for n in shaky]
         with mp.get_context("fork").Pool(min(4, len(jobs))) as pool:
             redo = {o["task"]: o for o in pool.map(_worker, jobs, chunksize=1)}
@@ -289,6 +289,9 @@ def main(argv=None):
         standins, hfails, harness_ok = [], [], False
         print(f"CHECKER-ERROR bounded suites crashed: {type(e).__name__}: {e}")
         traceback.print_exc(limit=6)
+    if os.environ.get("VERIF_DEBUG"):
+        import basictdf as _b
+        print("DEBUG harness library:", _b.__file__, "failures:", len(hfails), [f["kind"] for f in hfails[:5]])
     lib_fails = [f for f in hfails if f["kind"].startswith("libcheck")]
     hfails = [f for f in hfails if not f["kind"].startswith("libcheck")]
     for f in lib_fails[:5]:
